@@ -87,6 +87,15 @@ def build_corpus(tier, rng):
         Variant("B", "tuple", [Field("u8")], [doc(" First."), raw('doc = stringify!(second)'), doc(" Third."), doc(" Fourth."), msg("m")]),
         Variant("C", "unit", [], [doc(" Only literal."), raw('doc = concat!("tail")')]),
         Variant("D", "named", [Field("u8", "f")], [raw('doc = concat!("alone")')])])))
+    # doc attributes written as RAW strings or with an escaped first space: one leading space of the VALUE is removed, however it is spelled
+    def dsty(text, style):
+        d_ = doc(text)
+        d_.style = style
+        return d_
+    items.append(("doc-literal-styles", Item("E", [
+        Variant("A", "unit", [], [dsty(" Raw string doc.", "raw")]), Variant("B", "tuple", [Field("u8")], [dsty(" escaped space", "xesc")]),
+        Variant("C", "unit", [], [dsty(" one", "raw"), dsty("  two", "xesc"), doc(" three"), dsty("four", "uesc")]),
+        Variant("D", "named", [Field("u8", "f")], [dsty("no space", "raw"), msg("m")])])))
     # an EMPTY literal is a literal: Some("") is not None and not the fallback
     items.append(("empty-literals", Item("E", [
         Variant("A", "unit", [], [msg("short"), det("")]), Variant("B", "tuple", [Field("u8")], [det("")]), Variant("C", "unit", [], [msg("")]),
